@@ -1466,11 +1466,83 @@ impl ArrayObject {
     }
 }
 
+/// A value detached from every green thread's heap. Channel queues hold these: a written value
+/// is copied out of the writer's heap when it is written and materialized in the reader's heap
+/// when it is read, so it stays valid after the writer was collected or has finished, and no
+/// collector ever traces or recolours objects of another thread's heap.
+enum OwnedValue {
+    Scalar(Value),
+    Struct(Vec<OwnedValue>),
+    Array(Vec<OwnedValue>),
+    Variant(u16, Box<OwnedValue>),
+    String(String),
+    Channel(ChannelQueue),
+}
+
+type ChannelQueue = Arc<Mutex<VecDeque<OwnedValue>>>;
+
+impl OwnedValue {
+    fn from_value(v: Value, vm: &mut VmGreenThread) -> OwnedValue {
+        match v.1 {
+            ValueTag::Int | ValueTag::Float | ValueTag::Bool | ValueTag::Addr => {
+                OwnedValue::Scalar(v)
+            }
+            ValueTag::Struct => {
+                let fields = v.get_struct(vm).get_fields();
+                OwnedValue::Struct(
+                    fields
+                        .iter()
+                        .map(|f| OwnedValue::from_value(*f, vm))
+                        .collect(),
+                )
+            }
+            ValueTag::Array => {
+                let elems = &v.get_array(vm).data;
+                OwnedValue::Array(
+                    elems
+                        .iter()
+                        .map(|e| OwnedValue::from_value(*e, vm))
+                        .collect(),
+                )
+            }
+            ValueTag::Variant => {
+                let variant = v.get_variant(vm);
+                OwnedValue::Variant(
+                    variant.tag,
+                    Box::new(OwnedValue::from_value(variant.val, vm)),
+                )
+            }
+            ValueTag::String => OwnedValue::String(v.view_string(vm).to_string()),
+            ValueTag::Channel => OwnedValue::Channel(unsafe { v.get_channel(vm) }.data.clone()),
+        }
+    }
+
+    fn into_value(self, vm: &mut VmGreenThread) -> Value {
+        match self {
+            OwnedValue::Scalar(v) => v,
+            OwnedValue::Struct(fields) => {
+                let fields = fields.into_iter().map(|f| f.into_value(vm)).collect();
+                StructObject::new(fields, vm).into()
+            }
+            OwnedValue::Array(elems) => {
+                let elems = elems.into_iter().map(|e| e.into_value(vm)).collect();
+                ArrayObject::new(elems, vm).into()
+            }
+            OwnedValue::Variant(tag, val) => {
+                let val = val.into_value(vm);
+                EnumObject::new(tag, val, vm).into()
+            }
+            OwnedValue::String(s) => StringObject::new(s, vm).into(),
+            OwnedValue::Channel(data) => ChannelObject::new_with_data(vm, data).into(),
+        }
+    }
+}
+
 #[repr(C)]
 struct ChannelObject {
     header: ObjectHeader,
     // TODO: instead of Arc Mutex VecDeque there's probably something much better
-    data: Arc<Mutex<VecDeque<Value>>>,
+    data: ChannelQueue,
 }
 
 impl ChannelObject {
@@ -1478,10 +1550,7 @@ impl ChannelObject {
         ChannelObject::new_with_data(vm, Arc::new(Mutex::new(VecDeque::new())))
     }
 
-    fn new_with_data(
-        vm: &mut VmGreenThread,
-        data: Arc<Mutex<VecDeque<Value>>>,
-    ) -> *mut ChannelObject {
+    fn new_with_data(vm: &mut VmGreenThread, data: ChannelQueue) -> *mut ChannelObject {
         let header = ObjectHeader {
             kind: ObjectKind::Channel,
             visited: match &vm.gc_state {
@@ -1507,23 +1576,19 @@ impl ChannelObject {
         chan
     }
 
-    fn read_value(&self) -> Option<Value> {
+    fn read_value(&self) -> Option<OwnedValue> {
         let mut data = self.data.lock().unwrap();
         // TODO: it would be better to put this thread to sleep instead of constantly trying and failing to read from the channel
         data.pop_front()
     }
 
-    fn write_value(&self, val: Value) {
+    fn write_value(&self, val: OwnedValue) {
         let mut data = self.data.lock().unwrap();
         data.push_back(val);
     }
 
     fn copy(&self, vm: &mut VmGreenThread) -> Value {
         ChannelObject::new_with_data(vm, self.data.clone()).into()
-    }
-
-    fn header_ptr(&mut self) -> *mut ObjectHeader {
-        self as *mut Self as *mut ObjectHeader
     }
 
     fn nbytes(&self) -> usize {
@@ -2299,7 +2364,7 @@ impl VmGreenThread {
                 let read_val = chan_obj.read_value();
                 match read_val {
                     Some(read_val) => {
-                        let read_val = read_val.deep_copy(self);
+                        let read_val = read_val.into_value(self);
                         self.push(read_val)
                     } // TODO: use registers
                     None => {
@@ -2313,8 +2378,8 @@ impl VmGreenThread {
                 let chan = self.pop(); // TODO: use registers
                 let chan = unsafe { chan.get_channel_mut(self) };
 
-                // TODO: write_barrier not necessary
-                self.write_barrier(chan.header_ptr(), val);
+                // the queue owns a copy that does not live in any thread's heap
+                let val = OwnedValue::from_value(val, self);
                 chan.write_value(val);
             }
             Instr::ConstructStruct(n) => self.construct_struct(n as usize),
@@ -2641,10 +2706,7 @@ impl VmGreenThread {
                 ObjectKind::Channel => {
                     let obj = unsafe { &*(header_ptr as *const ChannelObject) };
                     *batch = batch.saturating_sub(obj.nbytes());
-                    let data = obj.data.lock().unwrap();
-                    for elem in data.iter() {
-                        Self::mark(elem, &mut self.gray_stack, self.gc_visited);
-                    }
+                    // queued values are owned copies outside every heap: nothing to trace
                 }
             }
         }
